@@ -216,6 +216,15 @@ def tasksOfInput (pm : Nat → Bytes → Bool) (fs : Fs) (inv : Inv) (mimetype o
     if rootName != [dotB] && rootName != dotdot && !inv.hidden && isHiddenName rootName then some [] else
     walkTasks pm inv mimetype output root inp (walk fs inv.hidden inp)
 
+/-- `createTasks`: the tasks of all inputs in order; `none` = error -/
+def allTasks (pm : Nat → Bytes → Bool) (fs : Fs) (inv : Inv) (mimetype output : Bytes) :
+    List Bytes → Option (List TaskP)
+  | [] => some []
+  | i :: rest =>
+    match tasksOfInput pm fs inv mimetype output i with
+    | none => none
+    | some n => (allTasks pm fs inv mimetype output rest).map (fun m => n ++ m)
+
 /-- the plan of an invocation -/
 structure Plan where
   tasks : List TaskP
@@ -231,50 +240,64 @@ deriving DecidableEq, Repr
 def normInput (input : Bytes) : Bytes :=
   cleanB input ++ (if endsWithSlash input then [slashB] else [])
 
-/-- `run()` up to the task list, before the duplicate-destination check of `createTasks` -/
-def planCore (pm : Nat → Bytes → Bool) (fs : Fs) (inv : Inv) : Option Plan :=
+/-- `-` as the only input means stdin, `-o -` means stdout: the (inputs, output) the checks work with -/
+def normArgs (inv : Inv) : List Bytes × Bytes :=
   let dash : Bytes := [45]
-  let (inputs, output) :=
-    if inv.inputs == [dash] then (([] : List Bytes), inv.output)
-    else if inv.output == dash then (inv.inputs, ([] : Bytes)) else (inv.inputs, inv.output)
+  if inv.inputs == [dash] then (([] : List Bytes), inv.output)
+  else if inv.output == dash then (inv.inputs, ([] : Bytes)) else (inv.inputs, inv.output)
+
+/-- `--type`: an extension is looked up in `extMap` (`none` = unknown filetype) -/
+def mimeOf (inv : Inv) : Option Bytes :=
+  if !inv.typ.contains slashB && !inv.typ.isEmpty then extMapB.lookup inv.typ else some inv.typ
+
+/-- the option combinations `run()` refuses -/
+def rejected (inv : Inv) (inputs : List Bytes) (output mimetype : Bytes) : Bool :=
   let useStdin := inputs.isEmpty
-  -- `--type`
-  let mimeO : Option Bytes :=
-    if !inv.typ.contains slashB && !inv.typ.isEmpty then extMapB.lookup inv.typ else some inv.typ
-  match mimeO with
-  | none => none
-  | some mimetype =>
-  if (useStdin || output.isEmpty) && inv.sync then none
-  else if useStdin && (inv.bundle || inv.recursive) then none
-  else if output.isEmpty && inv.recursive && !inv.bundle then none
-  else if mimetype.isEmpty && useStdin then none
-  else if !mimetype.isEmpty && inv.sync then none
-  else if inputs.contains dash then none
-  else
-  let inputs := inputs.map normInput
-  let isDirInput (i : Bytes) : Bool := kindOf fs (cleanP i) == .dir
-  let dirDst : Bool :=
-    !output.isEmpty && (endsWithSlash output || (!inv.bundle && inputs.length > 1) ||
-      (!inv.bundle && (match inputs with | [i] => isDirInput i | _ => false)))
+  ((useStdin || output.isEmpty) && inv.sync) ||
+  (useStdin && (inv.bundle || inv.recursive)) ||
+  (output.isEmpty && inv.recursive && !inv.bundle) ||
+  (inv.bundle && inv.sync) ||
+  (mimetype.isEmpty && useStdin) ||
+  (!mimetype.isEmpty && inv.sync) ||
+  inputs.contains [45]
+
+/-- bundling: the first task keeps its destination and gets all sources -/
+def finishPlan (inv : Inv) (outDir : Option Bytes) (mimetype : Bytes) (ts : List TaskP) : Plan :=
+  if inv.bundle && ts.length > 1 then
+    { tasks := ts.take 1, bundleSrcs := ts.map (·.src), outDir := outDir, mimetype := mimetype }
+  else { tasks := ts, outDir := outDir, mimetype := mimetype }
+
+/-- `dirDst`: the output names a directory (trailing slash, several inputs, or one directory input) -/
+def dirDstOf (fs : Fs) (inv : Inv) (inputs : List Bytes) (output : Bytes) : Bool :=
+  !output.isEmpty && (endsWithSlash output || (!inv.bundle && inputs.length > 1) ||
+    (!inv.bundle && (match inputs with | [i] => kindOf fs (cleanP i) == .dir | _ => false)))
+
+/-- input/output normalisation, `dirDst`, task creation, bundling -/
+def planTasks (pm : Nat → Bytes → Bool) (fs : Fs) (inv : Inv) (mimetype : Bytes) (inputs0 : List Bytes)
+    (output0 : Bytes) : Option Plan :=
+  let useStdin := inputs0.isEmpty
+  let inputs := inputs0.map normInput
+  let dirDst : Bool := dirDstOf fs inv inputs output0
   if dirDst && inv.bundle then none
-  else if output.isEmpty && !inv.bundle && inputs.length > 1 then none
+  else if output0.isEmpty && !inv.bundle && inputs.length > 1 then none
   else
-  let output := if output.isEmpty then output else cleanB output ++ (if dirDst then [slashB] else [])
+  let output := if output0.isEmpty then output0 else cleanB output0 ++ (if dirDst then [slashB] else [])
   let outDir := if dirDst then some (cleanB output) else none
   if useStdin then
     (newTask ⟨false, []⟩ ⟨false, []⟩ output false).map
       (fun t => { tasks := [t], outDir := outDir, mimetype := mimetype, stdinTask := true })
   else
-  let all := inputs.foldl (fun acc i =>
-    match acc with
-    | none => none
-    | some ts => (tasksOfInput pm fs inv mimetype output i).map (fun n => ts ++ n)) (some [])
-  match all with
+  match allTasks pm fs inv mimetype output inputs with
   | none => none
-  | some ts =>
-    if inv.bundle && ts.length > 1 then
-      some { tasks := ts.take 1, bundleSrcs := ts.map (·.src), outDir := outDir, mimetype := mimetype }
-    else some { tasks := ts, outDir := outDir, mimetype := mimetype }
+  | some ts => some (finishPlan inv outDir mimetype ts)
+
+/-- `run()` up to the task list, before the duplicate-destination check of `createTasks` -/
+def planCore (pm : Nat → Bytes → Bool) (fs : Fs) (inv : Inv) : Option Plan :=
+  match mimeOf inv with
+  | none => none
+  | some mimetype =>
+    if rejected inv (normArgs inv).1 (normArgs inv).2 mimetype then none
+    else planTasks pm fs inv mimetype (normArgs inv).1 (normArgs inv).2
 
 /-- two tasks write to the same file (`createTasks`: "… have the same destination …") -/
 def dupDst : List TaskP → Bool
